@@ -1,15 +1,17 @@
 /* C11 - pool life cycle: no deadlock, leak, late callback or double hook.
  * Scripts of life-cycle operations explored by E1 (schedules + resource-failure menus). */
 #include <fcntl.h>
+#include <time.h>
 #include <unistd.h>
 #include "tp/tp_common.h"
 
 enum { O_END = 0, O_CREATE, O_TCREATE0, O_TCREATE1, O_ATTACH, O_INFL_MSG, O_INFL_READ, O_INFL_TIMER,
-       O_SHUT, O_SHUT_B, O_SHUT_W, O_WAIT, O_DESTROY, O_QUIESCE, O_INFL_BUSY, O_GATE_B, O_HOOK_WAITS, O_INFL_STUCK, O_INFL_SYNC_BCAST, O_LATE_AOP, O_HOOK_GATE };
+       O_SHUT, O_SHUT_B, O_SHUT_W, O_WAIT, O_DESTROY, O_QUIESCE, O_INFL_BUSY, O_GATE_B, O_HOOK_WAITS, O_INFL_STUCK, O_INFL_SYNC_BCAST, O_LATE_AOP, O_HOOK_GATE, O_TIMER_ABS, O_INFL_CBSEND_SKIP, O_INFL_CBSEND_OTHER };
 static const char *opname[] = { "end", "create", "threads_create(0)", "threads_create(skip_first)", "attach_first", "inflight:msg",
        "inflight:read-event", "inflight:timer", "shutdown", "shutdown(concurrent thread B)", "shutdown(from worker)", "shutdown_wait", "destroy", "quiesce", "inflight:busy-callback", "open-gate(thread G)",
        "stop-hooks-call-shutdown_wait", "inflight:event-that-stays-ready", "inflight:sync-broadcast-from-a-worker",
-       "complete-an-async-operation-on-the-busy-worker", "stop-hook-of-the-last-worker-waits-on-the-gate" };
+       "complete-an-async-operation-on-the-busy-worker", "stop-hook-of-the-last-worker-waits-on-the-gate",
+       "add-the-timer-again-with-absolute-time", "inflight:cbsend(self-skip)-from-a-worker", "inflight:cbsend(self-skip)-from-the-first-worker" };
 
 #define MAXOPS 12
 typedef struct lvar_s {
@@ -96,6 +98,26 @@ late_aop_cb(tpt_p tpt, void **udata) {
 	aop_calls ++;
 	tpc_add(E_CB_BEGIN, (int)tpt_get_num(tpt), 999, 0, 0);
 	tpc_add(E_CB_END, (int)tpt_get_num(tpt), 999, 0, 0);
+}
+
+/* a worker broadcasts with a completion callback, skipping itself, while no other thread runs (slot 0 never started): nothing
+ * can be sent - whatever the call answers, the record it allocated must be released */
+static int cbskip_done = 0;
+static void
+cbskip_item_cb(tpt_p tpt, void *udata) { (void)tpt; (void)udata; }
+static void
+cbskip_done_cb(tpt_p tpt, size_t send_msg_cnt, size_t error_cnt, void *udata) {
+	(void)tpt; (void)udata; (void)send_msg_cnt; (void)error_cnt;
+	cbskip_done ++;
+}
+static void
+infl_cbsend_skip_cb(tpt_p tpt, void *udata) {
+	int rc;
+	(void)udata;
+	tpc_add(E_CB_BEGIN, (int)tpt_get_num(tpt), 889, 0, 0);
+	rc = tpt_msg_cbsend(tpt_get_tp(tpt), tpt, TP_BMSG_F_SELF_SKIP, cbskip_item_cb, NULL, cbskip_done_cb);
+	sc_log("cbsend(self-skip) from worker %d with nobody else running: rc=%d", (int)tpt_get_num(tpt), rc);
+	tpc_add(E_CB_END, (int)tpt_get_num(tpt), 889, 0, 0);
 }
 
 static void
@@ -210,7 +232,9 @@ life_scenario(int idx) {
 			memset(&tm_udata, 0, sizeof(tm_udata));
 			tm_udata.cb_func = infl_timer_cb;
 			tm_udata.ident = 1;
+			sc_fault_mask = (v->faults & SC_F_TIMERFD);
 			rc = tpt_ev_add_args(target_thread(), TP_EV_TIMER, TP_F_ONESHOT, TP_FF_T_SEC, 3600, &tm_udata);
+			sc_fault_mask = 0;
 			sc_log("inflight timer rc=%d", rc);
 			timer_armed = (0 == rc);
 			break;
@@ -279,6 +303,22 @@ life_scenario(int idx) {
 			sc_log("async operation completed towards the busy worker");
 			break;
 		}
+		case O_TIMER_ABS:	/* the same record again, absolute: the library replaces the timerfd; when that fails the call
+					 * reports an error and holds nothing any more */
+			sc_fault_mask = (v->faults & SC_F_TIMERFD);
+			rc = tpt_ev_add_args(target_thread(), TP_EV_TIMER, TP_F_ONESHOT, TP_FF_T_SEC | TP_FF_T_ABSTIME, (uint64_t)time(NULL) + 3600, &tm_udata);
+			sc_fault_mask = 0;
+			sc_log("timer added again with absolute time rc=%d", rc);
+			timer_armed = (0 == rc);
+			break;
+		case O_INFL_CBSEND_SKIP:
+			rc = tpt_msg_send(target_thread(), NULL, 0, infl_cbsend_skip_cb, NULL);
+			sc_log("inflight cbsend(self-skip) seed rc=%d", rc);
+			break;
+		case O_INFL_CBSEND_OTHER:	/* from worker 0, while the last worker is busy: its share is queued behind the busy callback */
+			rc = tpt_msg_send(tp_thread_get(tpc_tp, 0), NULL, 0, infl_cbsend_skip_cb, NULL);
+			sc_log("inflight cbsend(self-skip) seed for worker 0 rc=%d", rc);
+			break;
 		case O_INFL_SYNC_BCAST:
 			rc = tpt_msg_send(target_thread(), NULL, 0, infl_sync_bcast_cb, NULL);
 			sc_log("inflight sync broadcast seed rc=%d", rc);
